@@ -46,6 +46,8 @@ pub struct Freshness {
     /// evaluate only the acceptance clause (fresh, unconsumed challenge); used by C01, whose schedules
     /// contain forged traffic the other clauses are not written for
     pub acceptance_only: bool,
+    /// handshake datagrams that were accepted (created / re-keyed a session or led to Established), per node
+    accepted_handshakes: Vec<(usize, Vec<u8>)>,
 }
 
 fn kind_of(w: &World, j: &Injection) -> Option<(u8, [u8; 12], Option<ids::Id>)> {
@@ -173,6 +175,15 @@ impl Oracle for Freshness {
                 .rev()
                 .find(|c| c.to_id == src && c.to_addr == addr && !c.consumed && now <= c.armed_ms + REQUEST_TIMEOUT_MS + slack);
             if accepted || established {
+                // a challenge is fresh: its id-nonce never occurred before, so a handshake datagram that
+                // was accepted once can never verify against a later challenge
+                if self.accepted_handshakes.iter().any(|(n, b)| *n == i && *b == j.bytes) {
+                    return Some((
+                        "handshake/same-handshake-datagram-accepted-twice".into(),
+                        format!("node {i} {} for ({}, {addr}) on a handshake datagram it had already accepted once ({}) - whatever challenge it answered this time was not fresh (op {op:?})", if accepted { "created/re-keyed a session" } else { "reported Established" }, hex::encode(&src[..4]), j.manipulation.clone().unwrap_or("genuine delivery".into())),
+                    ));
+                }
+                self.accepted_handshakes.push((i, j.bytes.clone()));
                 match candidate {
                     Some(c) => c.consumed = true,
                     None => {
@@ -279,7 +290,7 @@ impl Property for C03 {
         rep
     }
     fn rule() -> String {
-        "schedules (<=40 quick / <=100 thorough ops) of honest exchanges in both directions between 2..4 real handlers with restarts (so that several handshakes and WHOAREYOUs exist in the log), plus re-injection of ANY logged datagram at any later point (duplicate before completion, after completion, after the challenge timeout, while a new challenge is outstanding) from the original source, another honest peer's address or an attacker address, and forged WHOAREYOUs echoing the nonce of an in-flight request (also by construction: for a request whose handshake is already out, also after the session that handshake created was evicted from a cache of one), of a completed one, of one in flight to another address, or a random nonce. Ledger of WHOAREYOUs each node emitted: a session may appear / be re-keyed (or Established be reported) on a handshake packet only if an unconsumed WHOAREYOU of that node to exactly (id, source address) exists that is not older than the challenge timeout since its last (re-)arming, and each WHOAREYOU accounts for one acceptance; a node emits a (new) handshake packet only in a step in which it received a WHOAREYOU echoing the nonce of a request in flight to that source address; per request id at most one distinct handshake packet. Non-trivial = a replayed handshake/WHOAREYOU arrived when its challenge/request was no longer outstanding.".into()
+        "schedules (<=40 quick / <=100 thorough ops) of honest exchanges in both directions between 2..4 real handlers with restarts (so that several handshakes and WHOAREYOUs exist in the log), plus re-injection of ANY logged datagram at any later point (duplicate before completion, after completion, after the challenge timeout, while a new challenge is outstanding) from the original source, another honest peer's address or an attacker address, and forged WHOAREYOUs echoing the nonce of an in-flight request (also by construction: for a request whose handshake is already out, also after the session that handshake created was evicted from a cache of one), of a completed one, of one in flight to another address, or a random nonce. Ledger of WHOAREYOUs each node emitted: a session may appear / be re-keyed (or Established be reported) on a handshake packet only if an unconsumed WHOAREYOU of that node to exactly (id, source address) exists that is not older than the challenge timeout since its last (re-)arming, and each WHOAREYOU accounts for one acceptance; a node emits a (new) handshake packet only in a step in which it received a WHOAREYOU echoing the nonce of a request in flight to that source address; per request id at most one distinct handshake packet; no handshake datagram is ever accepted twice. Non-trivial = a replayed handshake/WHOAREYOU arrived when its challenge/request was no longer outstanding.".into()
     }
     fn assumptions() -> Vec<String> {
         vec![
